@@ -154,4 +154,13 @@ theorem gen_permute_eq_model {α : Type} [Inhabited α] [OfNat α 0] (p : IArr) 
   · simp only [Permute.inverse, hinv, e2]; exact g.1
   · simp only [Permute.inverse, hinv, e2]; exact g.2
 
+/-- rank 0 (`shape = ()`): the index tuples are empty and `x[()]` is `x` — both directions are the identity -/
+theorem gen_permute_rank0 {α : Type} [Inhabited α] [OfNat α 0] (p : IArr) (h0 : p.shape = []) {s : Permute}
+    (h : Permute.init p = .ok s) (x : FArr α) :
+    s.shape = [] ∧ s.transform x = x ∧ s.inverse x = x := by
+  obtain ⟨_, hshape, hperm, hinv⟩ := gen_init_ok h
+  refine ⟨by rw [hshape, h0], ?_, ?_⟩
+  · simp only [Permute.transform, hperm, h0, unravelIndex]; rfl
+  · simp only [Permute.inverse, hinv, h0, unravelIndex]; rfl
+
 end PermGenPf
